@@ -434,6 +434,14 @@ theorem C08_po2_adjacent (c : Po2Cfg) (hs : c.stoch = true) (x u : ℚ) (l : ℤ
   unfold quantizedPo2
   rcases C08_po2_clip_adjacent c hs (absR x) u l hx hb h with e | e <;> rw [e] <;> simp
 
+/-- class level: an exact power of two inside the range (not cut by `max_value`) is fixed by every
+    draw `u > 0` (F2 is the draw `u = 0`) -/
+theorem C08_po2_clip_code_fixed_partial (c : Po2Cfg) (hs : c.stoch = true) (k : ℤ) (u : ℚ) (hu : 0 < u)
+    (hx : ¬ pow2 k < epsK) (hf : po2Filter c (pow2 k) = pow2 k)
+    (h : LogOK (pow2 k) (roundLog2 (pow2 k + epsK))) :
+    clipPowerOfTwo c true (pow2 k) u = clipI k c.minExp c.maxExp :=
+  po2_clip_code_fixed c hs k u hu hx hf h
+
 /-- phase 0: `_clip_power_of_two` (hence quantized_po2 and quantized_relu_po2) ignores the flag -/
 theorem C08_po2_clip_inference (c : Po2Cfg) (xabs u : ℚ) (phase' : Bool) (u' : ℚ) :
     clipPowerOfTwo c false xabs u = clipPowerOfTwo { c with stoch := false } phase' xabs u' := by
@@ -466,6 +474,13 @@ theorem C08_binary_codes (use01 stoch phase : Bool) (α x m u1 u2 : ℚ) (h0 : 0
     else x) = x'
   rcases sgn_mem x' with e | e | e <;> rcases roundHE_unit h0 h1 with r | r <;>
     cases use01 <;> cases stoch <;> cases phase <;> simp [e, r, absR] <;> norm_num
+
+/-- training: an input with `|x| ≥ f/8`, `f = 2·min(max|x|, 1)` — in particular the codes `±1` —
+    keeps its sign for every pair of draws: exactly the output of `binary()` without the flag -/
+theorem C08_binary_code_fixed (use01 : Bool) (α x m u1 u2 : ℚ) (hm : 0 < m)
+    (hx : 2 * (if 1 < m then 1 else m) / 8 ≤ |x|) (phase' : Bool) (m' v1 v2 : ℚ) :
+    binaryQ use01 true true α x m u1 u2 = binaryQ use01 false phase' α x m' v1 v2 :=
+  binary_sign_kept use01 α x m u1 u2 hm hx phase' m' v1 v2
 
 /-- phase 0: `binary(use_stochastic_rounding=True)` = `binary()` element-wise (0 ↦ +1) -/
 theorem C08_binary_inference (use01 : Bool) (α x m u1 u2 : ℚ) (phase' : Bool) (m' v1 v2 : ℚ) :
